@@ -214,11 +214,11 @@ CONDITIONS = [
      'what': 'saved recordings with symbolic category texts / metadata vs a query; sharded by (cassette, filter kind, query text '
              'or fixed categories)',
      'tiers': {'quick': {'bounds': {'CL': 2, 'ALPHA': ['a', '_'], 'LIM': 1, 'N': 2, 'NMIN': 2}, 'timeout': 600, 'shards': _QS, 'witness_shard': _W},
-               'thorough': {'bounds': {'CL': 2, 'ALPHA': ['a', '_'], 'LIM': 2, 'N': 2, 'NMIN': 2}, 'timeout': 6000, 'shards': _TS, 'witness_shard': _W}}},
+               'thorough': {'bounds': {'CL': 2, 'ALPHA': ['a', '_'], 'LIM': 1, 'N': 2, 'NMIN': 2}, 'timeout': 900, 'shards': _QS, 'witness_shard': _W}}},
     {'fn': 'metadata_listing', 'nontrivial': 'listed',
      'what': 'iter_recordings_metadata returns the metadata of exactly the listed recordings',
      'tiers': {'quick': {'bounds': {'CL': 2, 'ALPHA': ['a', '_']}, 'timeout': 600, 'shards': [{'cassette': c, 'q': 'a'} for c in ('mem', 'file', 's3')],
                          'witness_shard': {'cassette': 'mem', 'q': 'a'}},
-               'thorough': {'bounds': {'CL': 2, 'ALPHA': ['a', 'b', '_']}, 'timeout': 3000,
-                            'shards': [{'cassette': c} for c in ('mem', 'file', 's3')], 'witness_shard': {'cassette': 'mem'}}}},
+               'thorough': {'bounds': {'CL': 2, 'ALPHA': ['a', '_']}, 'timeout': 900, 'shards': [{'cassette': c, 'q': 'a'} for c in ('mem', 'file', 's3')],
+                            'witness_shard': {'cassette': 'mem', 'q': 'a'}}}},
 ]
